@@ -511,15 +511,25 @@ fn word_magic(xs: &mut Xstate) -> Xresult {
             fail_pos: pos,
         });
     }
-    move_offset_checked(xs, s.end())?;
-    xs.push_data(Cell::from(s))
+    let end = s.end();
+    push_and_advance(xs, Cell::from(s), end)
+}
+
+// push what was read, then advance: a read whose result the data stack refuses (stack
+// limit) has to leave the offset where it was
+fn push_and_advance(xs: &mut Xstate, val: Cell, end: usize) -> Xresult {
+    xs.push_data(val)?;
+    if let Err(e) = move_offset_checked(xs, end) {
+        let _ = xs.pop_data();
+        return Err(e);
+    }
+    OK
 }
 
 fn read_bits(xs: &mut Xstate, n: usize) -> Xresult {
     let s = peek_bits(xs, n)?;
-    move_offset_checked(xs, s.end())?;
-    let val = Cell::from(s);
-    xs.push_data(val)
+    let end = s.end();
+    push_and_advance(xs, Cell::from(s), end)
 }
 
 fn word_bitstr(xs: &mut Xstate) -> Xresult {
@@ -559,8 +569,8 @@ fn read_unsigned(xs: &mut Xstate, n: usize, bo: Byteorder) -> Xresult {
         return Err(Xerr::IntegerOverflow);
     }
     let x = s.to_uint(bo) as Xint;
-    move_offset_checked(xs, s.end())?;
-    xs.push_data(Cell::from(x).with_tags(bitstr_num_tags(s, bo)))
+    let end = s.end();
+    push_and_advance(xs, Cell::from(x).with_tags(bitstr_num_tags(s, bo)), end)
 }
 
 fn read_signed(xs: &mut Xstate, n: usize, bo: Byteorder) -> Xresult {
@@ -569,8 +579,8 @@ fn read_signed(xs: &mut Xstate, n: usize, bo: Byteorder) -> Xresult {
         return Err(Xerr::IntegerOverflow);
     }
     let x = s.to_int(bo);
-    move_offset_checked(xs, s.end())?;
-    xs.push_data(Cell::from(x).with_tags(bitstr_num_tags(s, bo)))
+    let end = s.end();
+    push_and_advance(xs, Cell::from(x).with_tags(bitstr_num_tags(s, bo)), end)
 }
 
 fn read_signed_n(xs: &mut Xstate, n: usize) -> Xresult {
@@ -595,8 +605,8 @@ fn read_float(xs: &mut Xstate, n: usize, bo: Byteorder) -> Xresult {
         64 => s.to_f64(bo) as Xreal,
         n => return Err(float_len_err(n)),
     };
-    move_offset_checked(xs, s.end())?;
-    xs.push_data(Cell::from(val).with_tags(bitstr_num_tags(s, bo)))
+    let end = s.end();
+    push_and_advance(xs, Cell::from(val).with_tags(bitstr_num_tags(s, bo)), end)
 }
 
 fn bitstr_num_tags(bs: Bitstr, bo: Byteorder) -> Xmap {
@@ -608,7 +618,8 @@ fn bitstr_num_tags(bs: Bitstr, bo: Byteorder) -> Xmap {
     m
 }
 
-fn nulbytestr_read(xs: &mut Xstate) -> Xresult1<Bitstr> {
+// the zero-terminated bytes at the offset and the position right behind them
+fn nulbytestr_read(xs: &mut Xstate) -> Xresult1<(Bitstr, usize)> {
     let mut s = rest_bits(xs)?;
     if !s.is_bytestr() {
         return Err(Xerr::ToBytestrError(s));
@@ -622,17 +633,16 @@ fn nulbytestr_read(xs: &mut Xstate) -> Xresult1<Bitstr> {
         }
     }
     let ss = s.read(len).unwrap();
-    move_offset_checked(xs, start + len)?;
-    Ok(ss)
+    Ok((ss, start + len))
 }
 
 fn nulbytestr_word(xs: &mut Xstate) -> Xresult {
-    let bs = nulbytestr_read(xs)?;
-    xs.push_data(Cell::from(bs))
+    let (bs, end) = nulbytestr_read(xs)?;
+    push_and_advance(xs, Cell::from(bs), end)
 }
 
 fn cstr_word(xs: &mut Xstate) -> Xresult {
-    let bs = nulbytestr_read(xs)?;
+    let (bs, end) = nulbytestr_read(xs)?;
     let mut s = String::with_capacity(bs.len() / 8 + 1);
     for (x, _) in bs.iter8() {
         if x == 0 {
@@ -641,7 +651,7 @@ fn cstr_word(xs: &mut Xstate) -> Xresult {
         let c = char::from_u32(x as u32).unwrap();
         s.push(c)
     }
-    xs.push_data(Cell::from(s))
+    push_and_advance(xs, Cell::from(s), end)
 }
 
 fn word_write(xs: &mut Xstate) -> Xresult {
